@@ -9,13 +9,16 @@ package main
 
 import (
 	"bufio"
+	"bytes"
 	"context"
 	"encoding/hex"
 	"fmt"
+	"io"
 	"os"
 	"strconv"
 	"strings"
 	"sync"
+	"time"
 
 	"github.com/mimecast/dtail/internal/config"
 	"github.com/mimecast/dtail/internal/io/dlog"
@@ -96,7 +99,17 @@ func main() {
 		logger = os.Args[1]
 	}
 	setup(logger)
-	in := bufio.NewReaderSize(os.Stdin, 1<<20)
+	// Read every case first and give the process /dev/null as its stdin: serverless read
+	// commands look at os.Stdin (a pipe there means "read the pipe instead of the file") and
+	// would otherwise consume the remaining cases.
+	all, rerr := io.ReadAll(os.Stdin)
+	if rerr != nil {
+		panic(rerr)
+	}
+	if devnull, derr := os.Open(os.DevNull); derr == nil {
+		os.Stdin = devnull
+	}
+	in := bufio.NewReaderSize(bytes.NewReader(all), 1<<20)
 	out := bufio.NewWriter(proto)
 	idx := 0
 	for {
@@ -115,4 +128,10 @@ func main() {
 			break
 		}
 	}
+	// a panic in a goroutine that the last case left behind must still kill the process
+	grace := 100
+	if g, err := strconv.Atoi(os.Getenv("VERIF_GRACE_MS")); err == nil {
+		grace = g
+	}
+	time.Sleep(time.Duration(grace) * time.Millisecond)
 }
